@@ -574,6 +574,13 @@ func init() {
 		e.stubs[e.argStr(a[0])] = a[1].(Iface).V
 		return nil
 	})
+	vp("StubPre", func(e *Exec, _ *frame, a []Value) Value {
+		e.stubsPre[e.argStr(a[0])] = a[1].(Iface).V
+		return nil
+	})
+	vp("Ite", func(e *Exec, _ *frame, a []Value) Value {
+		return e.tb.Ite(a[0].(*Term), a[1].(*Term), a[2].(*Term))
+	})
 	vp("Symbolic", func(e *Exec, _ *frame, a []Value) Value { return e.tb.Bool(true) })
 	vp("Note", func(e *Exec, _ *frame, a []Value) Value { e.notes = append(e.notes, e.argStr(a[0])); return nil })
 
@@ -744,6 +751,39 @@ func init() {
 			return e.tb.Bool(false)
 		})
 	}
+	// harness helper: check.isPanic = set of calls (natively done with reflect+unsafe)
+	reg("github.com/goplus/gogen.verifSetIsPanic", func(e *Exec, _ *frame, a []Value) Value {
+		p := a[0].(*Value)
+		st := (*p).(Struct)
+		pk := e.w.prog.ImportedPackage("go/types")
+		ct := pk.Pkg.Scope().Lookup("Checker").Type().Underlying().(*types.Struct)
+		m := newMap(nil)
+		for _, c := range a[1].(SliceV).Data {
+			e.mapUpdate(m, c, e.tb.Bool(true))
+		}
+		var set func(st Struct, t *types.Struct) bool
+		set = func(st Struct, t *types.Struct) bool {
+			for i := 0; i < t.NumFields(); i++ {
+				f := t.Field(i)
+				if f.Name() == "isPanic" {
+					st[i] = m
+					return true
+				}
+				if f.Embedded() {
+					if sub, ok := st[i].(Struct); ok {
+						if ts, ok := f.Type().Underlying().(*types.Struct); ok && set(sub, ts) {
+							return true
+						}
+					}
+				}
+			}
+			return false
+		}
+		if set(st, ct) {
+			return nil
+		}
+		panic("go/types.Checker has no field isPanic")
+	})
 	reg("runtime.Caller", func(e *Exec, _ *frame, a []Value) Value {
 		return Tuple{e.tb.BV(64, 0), "?", e.tb.BV(64, 0), e.tb.Bool(false)}
 	})
